@@ -11,6 +11,7 @@ import gen_checks
 import conv_checks
 import err_checks
 import alias_checks
+import pre_checks
 
 CORE_A = ["Model/Base.v", "Model/Dispatch.v", "Model/Routing.v", "Model/DispLane.v", "Gen/DispatchSrc.v", "Gen/ConvSrc.v",
           "Proofs/DispatchProofs.v", "Proofs/RoutingProofs.v", "Proofs/SrcObligations.v"]
@@ -131,6 +132,13 @@ REGISTRY = {
                     "payloads with known / unknown / missing tag, extra keys, reordered keys) and a battery of TypedDict hooks built with renames / omissions and forbid_extra_keys "
                     "(valid payloads, extra keys, missing keys, bad values, non-mappings); every call is bracketed by a deep identity snapshot of the argument; non-trivial = every call; "
                     "distinct = sha1 of (operation, configuration, type, input)"},
+    "C16": {"props_file": "Props/C16.v", "files": CORE_CONV + ["Model/Preconf.v", "Proofs/ConvSound.v", "Proofs/ConvPrim.v", "Proofs/PreconfProofs.v", "Proofs/ConvCfg.v", "Props/C16.v"],
+            "run": (lambda v, b, tier: pre_checks.check_c16(v, 40 * SIZES[tier])), "t1_sections": ["gen"],
+            "rule": "worlds as in the CONV lane with datetime / date leaves, no Any / untyped positions; per world 4 types x 2 values x every importable format (json, pyyaml, msgspec): "
+                    "dumps, loads, deep equality -- skipped when the type is outside the format's limits (bool / float / bytes / class keys and int-valued enum keys in text formats, bytes "
+                    "literals); for json additionally the model comparison; per world the user-hook battery: a hook pair registered for an attrs class and for a dataclass, used at top level, "
+                    "in a list, inside an attrs class and inside a dataclass, for every format; non-trivial = composite type or class, and every hook check; distinct = sha1 of "
+                    "(world, format, type, value)"},
     "C02": {"props_file": "Props/C02.v", "files": CORE_CONV + ["Proofs/ConvSound.v", "Proofs/ConvCfg.v", "Props/C02.v"], "run": _conv("C02", 40), "rule": RULE_CONV, "t1_sections": ["gen"]},
     "C04": {"props_file": "Props/C04.v", "files": CORE_TPL + ["Props/C04.v"], "run": _c04, "rule": RULE_TPL, "t1_sections": ["gen"]},
     "C09": {"props_file": "Props/C09.v", "files": CORE_TPL + ["Proofs/UnstructProofs.v", "Props/C09.v"], "run": _c09, "rule": RULE_TPL, "t1_sections": ["gen"]},
